@@ -681,6 +681,11 @@ def regeneration_family() -> List[Dict[str, Any]]:
         [" ".join([sup("r1"), sup("r2", "r1"), sup("r3", "r1"), sup("r4", "r2, r3"), sup("r5", "r4")])],
         [" ".join([sup("r1"), sup("r2"), sup("r3", "r2, r1"), sup("r4", "r3"), sup("r5", "r1")])],
         [sup("r1"), sup("r2", "r1"), sup("r3", "r2"), sup("r4", "r3")],
+        # several listed superiors that each inherit DIFFERENT superiors of their own (in either order, also split over files)
+        [" ".join([sup("t1"), sup("t2"), sup("m1", "t1"), sup("m2", "t2"), sup("low", "m1, m2")])],
+        [" ".join([sup("t1"), sup("t2"), sup("m1", "t1"), sup("m2", "t2"), sup("low", "m2, m1")])],
+        [" ".join([sup("t1"), sup("t2"), sup("t3"), sup("m1", "t1"), sup("m2", "t2, t3")]), sup("low", "m1, m2"),
+         sup("lower", "low")],
     ]
     for texts in chains:
         out.append({"fam": "wf", "texts": texts, "mult": [1.0, 1.0]})
